@@ -15,14 +15,16 @@ Definition all_denoms (g : cfg) : list Z := flat_map denoms_of g.
 
 Definition call_amt (t : Z) (b : bcall) : Z := sumZ (map snd (filter (fun p => fst p =? t) (c_toks b))).
 Definition inflight (c t : Z) (s : state) : Z :=
-  let x := X c s in
-  total_of (of_tok t (x_pool x)) + total_of (of_tok t (flat_map b_txs (x_batches x))) + sumZ (map (call_amt t) (x_calls x)).
+  let r := sr s in
+  total_of (filter (sel_tx c t) (pool r))
+  + total_of (filter (sel_tx c t) (flat_map b_txs (filter (fun b => b_chain b =? c) (batches r))))
+  + sumZ (map (call_amt t) (filter (fun b => c_chain b =? c) (calls r))).
 
 Definition cells (g : cfg) (accts chains : list Z) (s : state) : list Z :=
-  flat_map (fun a => map (fun d => get2 (a, d) (bank s)) (all_denoms g)) accts
-  ++ map (fun d => get1 d (supply s)) (all_denoms g)
-  ++ flat_map (fun t => map (fun a => get2 (t_id t, a) (ebal s)) accts) g
-  ++ map (fun t => get1 (t_id t) (etot s)) g
+  flat_map (fun a => map (fun d => get2 (a, d) (bank (sb s))) (all_denoms g)) accts
+  ++ map (fun d => get1 d (supply (sb s))) (all_denoms g)
+  ++ flat_map (fun t => map (fun a => get2 (t_id t, a) (ebal (sb s))) accts) g
+  ++ map (fun t => get1 (t_id t) (etot (sb s))) g
   ++ flat_map (fun c => map (fun t => inflight c (t_id t) s) g) chains.
 
 Fixpoint wsum (i : Z) (l : list Z) : Z :=
@@ -39,8 +41,10 @@ Definition mk_lcase g a c b su eb et h ops : lcase :=
      lc_heights := h; lc_ops := ops |}.
 
 Definition init_of (k : lcase) : state :=
-  {| bank := lc_bank k; supply := lc_supply k; ebal := lc_ebal k; etot := lc_etot k; disabled := [];
-     xs := map (fun p => (fst p, x_set_height (snd p) x0)) (lc_heights k); dep := []; exe := [] |}.
+  {| sb := {| bank := lc_bank k; supply := lc_supply k; ebal := lc_ebal k; etot := lc_etot k; disabled := [] |};
+     sr := {| pool := []; batches := []; calls := []; txid := []; batchid := []; callid := [];
+              height := lc_heights k; rel := []; frommsg := [] |};
+     sg := {| dept := []; exet := []; depc := []; exec := [] |} |}.
 
 (* index (from 0) of the first step on which model and implementation disagree, -1 if none *)
 Fixpoint first_bad (k : lcase) (i : Z) (s : state) (l : list (op * bool * Z)) : Z :=
